@@ -204,8 +204,9 @@ def sc_sparse(V, P, cfg):
             from symx import factor, oracles
             oracles.CRAMER_MAX_N = 3
             V.c.arpack_calls = []
-            W = wrap(np.array([R.of(1), R.of(2)], dtype=object))
-            Q = wrap(np.array([[C(R.of(1), R.of(0)), C(R.of(0), R.of(0))], [C(R.of(0), R.of(0)), C(R.of(1), R.of(0))]], dtype=object))
+            # (not in ascending order: for complex Hermitian input scipy's eigsh hands back ARPACK's own order)
+            W = wrap(np.array([R.of(2), R.of(1)], dtype=object))
+            Q = wrap(np.array([[C(R.of(0), R.of(0)), C(R.of(1), R.of(0))], [C(R.of(1), R.of(0)), C(R.of(0), R.of(0))]], dtype=object))
             assume_nonsingular(V, np.asarray(A), "A")
             factor.register("eig", (W, Q))
     if V.symbolic and not cfg.get("herm"):
@@ -344,66 +345,68 @@ def _replay_sparse(cfg, label, V):
     import scipy.sparse as sps
     import scipy.sparse.linalg as spsla
     import scipy.linalg as spla
-    N, nm, gen = 8, cfg["nmodes"], cfg["gen"]
-    d = np.array([4.0, 7.5, 2.5, 9.0, 5.5, 12.0, 3.25, 8.0])
-    Ad = np.diag(d) + np.diag(np.full(N - 1, 1.0), 1) + np.diag(np.full(N - 1, 1.0), -1)
-    if cfg.get("herm"):     # complex Hermitian: purely imaginary skew part on the second off-diagonal
-        Ad = Ad.astype(complex) + 1j * (np.diag(np.linspace(0.3, 0.9, N - 2), 2) - np.diag(np.linspace(0.3, 0.9, N - 2), -2))
-    Bd = np.diag(np.linspace(1.0, 2.0, N)) if gen else np.eye(N)
-    sigma = float(V.real("sigma", nonzero=True, default=0.5)) if cfg["sigma"] == "sym" else 0.0
-    # indefinite w.r.t. the shift: the eigenvalue closest to sigma lies just below it
-    W0 = np.sort(spla.eigh(Ad, Bd, eigvals_only=True))
-    Ad = Ad - (W0[3] + 0.1 * (W0[4] - W0[3]) - sigma) * Bd
-    mk = sps.csr_matrix if cfg.get("fmt") == "csr" else sps.csc_matrix
-    sigs = [pym.Signal("A", mk(Ad))] + ([pym.Signal("B", mk(Bd))] if gen else [])
-    m = pym.EigenSolve(sigs, nmodes=nm, sigma=sigma, hermitian=True)
-    calls = []
-    real = dict(eigsh=spsla.eigsh, eigs=spsla.eigs)
-
-    def spy(kind):
-        def f(*a, **kw):
-            calls.append(dict(kind=kind, kw=dict(kw)))
-            return real[kind](*a, **kw)
-        return f
-    spsla.eigsh, spsla.eigs = spy("eigsh"), spy("eigs")
-    try:
-        m.response()
-    finally:
-        spsla.eigsh, spsla.eigs = real["eigsh"], real["eigs"]
-    W, Q = np.asarray(m.sig_out[0].state), np.asarray(m.sig_out[1].state)
     bad = []
-    if len(calls) != 1:
-        bad.append("one-arpack-call")
-    for cl in calls[-1:]:
-        kw = cl["kw"]
-        if cl["kind"] != "eigsh":
-            bad.append("eigsh-for-hermitian")
-        if kw.get("k") != nm:
-            bad.append("k==nmodes")
-        if kw.get("which", "LM") != "LM":
-            bad.append("which=='LM'")
-        if kw.get("mode", "normal") != "normal":
-            bad.append("mode=='normal'")
-        if kw.get("sigma") != sigma:
-            bad.append("sigma-passed")
-        if [k_ for k_ in kw if k_ not in ("k", "M", "OPinv", "sigma", "mode", "which", "v0", "ncv", "maxiter", "tol")]:
-            bad.append("no-further-arpack-options")
-    Wall = np.sort(spla.eigh(Ad, Bd, eigvals_only=True))
-    closest = np.sort(Wall[np.argsort(abs(Wall - sigma))[:nm]])
-    if W.shape != (nm,) or Q.shape != (N, nm):
-        bad.append("nmodes-returned")
-    elif not np.allclose(np.sort(np.real(W)), closest, rtol=1e-7, atol=1e-9):
-        bad += ["which=='LM'", "OPinv", "sigma-passed", "A-passed", "M-passed", "M-is-None"]   # not the nm values closest to the shift
-    for i in range(min(nm, Q.shape[1] if Q.ndim == 2 else 0)):
-        if abs(Q[:, i] @ Bd @ Q[:, i] - 1) > 1e-7:
-            bad.append("norm[%d]" % i)
-        if np.real(np.average(Q[:, i])) < -1e-12:
-            bad.append("sign[%d]" % i)
-        if np.linalg.norm(Ad @ Q[:, i] - W[i] * (Bd @ Q[:, i])) > 1e-6 * np.linalg.norm(Ad):
-            bad += ["pair[%d]" % i, "OPinv"]      # ARPACK was given an operator that does not invert A - sigma B
-    for i in range(len(W) - 1):
-        if not np.real(W[i]) <= np.real(W[i + 1]) + 1e-12:
-            bad.append("order[%d]" % i)
+    for frac in (0.1, 0.9):
+        N, nm, gen = 8, cfg["nmodes"], cfg["gen"]
+        d = np.array([4.0, 7.5, 2.5, 9.0, 5.5, 12.0, 3.25, 8.0])
+        Ad = np.diag(d) + np.diag(np.full(N - 1, 1.0), 1) + np.diag(np.full(N - 1, 1.0), -1)
+        if cfg.get("herm"):     # complex Hermitian: purely imaginary skew part on the second off-diagonal
+            Ad = Ad.astype(complex) + 1j * (np.diag(np.linspace(0.3, 0.9, N - 2), 2) - np.diag(np.linspace(0.3, 0.9, N - 2), -2))
+        Bd = np.diag(np.linspace(1.0, 2.0, N)) if gen else np.eye(N)
+        sigma = float(V.real("sigma", nonzero=True, default=0.5)) if cfg["sigma"] == "sym" else 0.0
+        # indefinite w.r.t. the shift: the eigenvalue closest to sigma lies just below it (frac = 0.1: which/mode arguments
+        # matter) or just above it (frac = 0.9: ARPACK's distance-to-shift order is not the ascending order)
+        W0 = np.sort(spla.eigh(Ad, Bd, eigvals_only=True))
+        Ad = Ad - (W0[3] + frac * (W0[4] - W0[3]) - sigma) * Bd
+        mk = sps.csr_matrix if cfg.get("fmt") == "csr" else sps.csc_matrix
+        sigs = [pym.Signal("A", mk(Ad))] + ([pym.Signal("B", mk(Bd))] if gen else [])
+        m = pym.EigenSolve(sigs, nmodes=nm, sigma=sigma, hermitian=True)
+        calls = []
+        real = dict(eigsh=spsla.eigsh, eigs=spsla.eigs)
+
+        def spy(kind):
+            def f(*a, **kw):
+                calls.append(dict(kind=kind, kw=dict(kw)))
+                return real[kind](*a, **kw)
+            return f
+        spsla.eigsh, spsla.eigs = spy("eigsh"), spy("eigs")
+        try:
+            m.response()
+        finally:
+            spsla.eigsh, spsla.eigs = real["eigsh"], real["eigs"]
+        W, Q = np.asarray(m.sig_out[0].state), np.asarray(m.sig_out[1].state)
+        if len(calls) != 1:
+            bad.append("one-arpack-call")
+        for cl in calls[-1:]:
+            kw = cl["kw"]
+            if cl["kind"] != "eigsh":
+                bad.append("eigsh-for-hermitian")
+            if kw.get("k") != nm:
+                bad.append("k==nmodes")
+            if kw.get("which", "LM") != "LM":
+                bad.append("which=='LM'")
+            if kw.get("mode", "normal") != "normal":
+                bad.append("mode=='normal'")
+            if kw.get("sigma") != sigma:
+                bad.append("sigma-passed")
+            if [k_ for k_ in kw if k_ not in ("k", "M", "OPinv", "sigma", "mode", "which", "v0", "ncv", "maxiter", "tol")]:
+                bad.append("no-further-arpack-options")
+        Wall = np.sort(spla.eigh(Ad, Bd, eigvals_only=True))
+        closest = np.sort(Wall[np.argsort(abs(Wall - sigma))[:nm]])
+        if W.shape != (nm,) or Q.shape != (N, nm):
+            bad.append("nmodes-returned")
+        elif not np.allclose(np.sort(np.real(W)), closest, rtol=1e-7, atol=1e-9):
+            bad += ["which=='LM'", "OPinv", "sigma-passed", "A-passed", "M-passed", "M-is-None"]   # not the nm values closest to the shift
+        for i in range(min(nm, Q.shape[1] if Q.ndim == 2 else 0)):
+            if abs(Q[:, i] @ Bd @ Q[:, i] - 1) > 1e-7:
+                bad.append("norm[%d]" % i)
+            if np.real(np.average(Q[:, i])) < -1e-12:
+                bad.append("sign[%d]" % i)
+            if np.linalg.norm(Ad @ Q[:, i] - W[i] * (Bd @ Q[:, i])) > 1e-6 * np.linalg.norm(Ad):
+                bad += ["pair[%d]" % i, "OPinv"]      # ARPACK was given an operator that does not invert A - sigma B
+        for i in range(len(W) - 1):
+            if not np.real(W[i]) <= np.real(W[i + 1]) + 1e-12:
+                bad.append("order[%d]" % i)
     hit = [b for b in bad if label.startswith(b)]
     return dict(reproduced=bool(hit), detail=dict(failed=bad, W=np.real(W).tolist(), closest=closest.tolist(),
                                                   call=[dict(kind=c_["kind"], kw={k_: repr(v_)[:40] for k_, v_ in c_["kw"].items()}) for c_ in calls]))
